@@ -604,8 +604,10 @@ SvcDirect ==
 
 CallPrice ==
   /\ st.inb /\ gh.calls < MaxCalls
-  /\ \E who \in Users, f \in FeedNames \cup {"nofeed"}, rk \in (1..(MaxFeeds + MaxCalls)) \ {st.ctx[c].rank : c \in DOMAIN st.ctx} :
-       Step([NoEv EXCEPT !.name = "CallPrice", !.who = who, !.feed = f, !.cap = 1, !.rank = rk])
+  /\ \E who \in Users, f \in FeedNames \cup {"nofeed"} :
+       \* the id rank of a finished one-shot context never matters: take the least free one
+       LET free == (1..(MaxFeeds + MaxCalls)) \ {st.ctx[c].rank : c \in DOMAIN st.ctx} IN
+       Step([NoEv EXCEPT !.name = "CallPrice", !.who = who, !.feed = f, !.cap = 1, !.rank = SetMin(free)])
 BindX ==
   /\ st.inb /\ gh.calls < MaxCalls
   /\ \E p \in Provs, x \in {1, 3}, dep \in {1, 5} :
